@@ -5,6 +5,12 @@ import glob, json, os
 V = os.path.dirname(os.path.dirname(os.path.abspath(__file__)))
 props = [json.loads(l) for l in open(os.path.join(V, "properties.jsonl")) if l.strip()]
 hooks = json.load(open(os.path.join(V, "checks", "hooks.json")))
+try:
+    import subprocess
+    out = subprocess.run(["git", "-C", "/repo", "log", "--format=%H %s"], capture_output=True, text=True).stdout
+    hooks["source_commits"] = [l.split()[0] for l in out.splitlines() if l.split(" ", 1)[1].startswith("verif hook:")][::-1]
+except Exception:
+    pass
 na = {}
 p = os.path.join(V, "checks", "not_applicable.json")
 if os.path.exists(p):
